@@ -17,6 +17,32 @@ int good_wait(void)
 			rc = 1;
 	return rc;
 }
+__attribute__((noreturn)) void longjmp_like_exit(int);
+int good_wait_guarded(int exit_status)		/* the flex_main shape: status + 1 convention, guarded store */
+{
+	int st;
+	while (wait(&st) > 0)
+		if (!WIFEXITED(st) || WEXITSTATUS(st) != 0)
+			if (exit_status <= 1)
+				exit_status = 2;
+	return exit_status - 1;
+}
+int bad_wait_polarity(void)			/* control: a child killed by a signal counts as success */
+{
+	int status, rc = 0;
+	while (wait(&status) > 0)
+		if (WIFEXITED(status) && WEXITSTATUS(status) != 0)
+			rc = 1;
+	return rc;
+}
+int bad_wait_exitcode_only(void)		/* control: both masks consulted, but only exit code 1 is a failure */
+{
+	int status, rc = 0;
+	while (wait(&status) > 0)
+		if (!WIFEXITED(status) || WEXITSTATUS(status) == 1)
+			rc = 1;
+	return rc;
+}
 int bad_wait_null(void)
 {
 	while (wait(0) > 0) ;
